@@ -127,7 +127,17 @@ func (c *fctx) checkOrder(n ast.Node) {
 					calls = append(calls, x)
 				}
 			}
+			for _, a := range c.t.writtenArgs(x) { // in-out slice arguments (trans_func.go)
+				if o, _ := c.t.rootObj(a); o != nil {
+					written[o] = true
+					calls = append(calls, x)
+				}
+			}
 			if o := c.t.seqWrites(x); o != nil { // [seq] atomic Store / CompareAndSwap / Add
+				written[o] = true
+				calls = append(calls, x)
+			}
+			for _, o := range c.t.foreignWrites08(x) { // [ext:T08] slice arguments a foreign function writes
 				written[o] = true
 				calls = append(calls, x)
 			}
@@ -168,6 +178,9 @@ func (c *fctx) taintCalls(n ast.Node, en *env) *env {
 		if x, ok := m.(*ast.CallExpr); ok {
 			if fn, _ := c.t.calleeOf(x); fn != nil {
 				for i, a := range x.Args {
+					if fi := c.t.funcs[fn]; fi != nil && i < len(fi.noesc) && fi.noesc[i] {
+						continue // the callee neither keeps nor returns this slice (trans_func.go)
+					}
 					if c.t.notKept15(fn, i) { // [ext:T15] an out-parameter of a callee that can neither return nor store the slice
 						continue
 					}
@@ -252,7 +265,7 @@ func (c *fctx) assignTo(lhs ast.Expr, val string, en *env, k func() string) stri
 		return c.expr(ix.X, en, func(b string) string {
 			return c.expr(ix.Index, en, func(i string) string {
 				v := c.fresh("s")
-				return fmt.Sprintf("do %s <- m_set %s %s %s;;\n%s", v, b, i, val, c.store(ix.X, v, en, k))
+				return fmt.Sprintf("do %s <- %s %s %s %s;;\n%s", v, setFn08(c.t.exprType(ix.X)), b, i, val, c.store(ix.X, v, en, k)) // [ext:T08] m_setA on [][]byte
 			})
 		})
 	}
@@ -335,6 +348,10 @@ func (c *fctx) stmt(s ast.Stmt, en *env, lc *lctx, next kont) string {
 				t.fail(s, "pointer variable %s", it.id.Name)
 			}
 			if it.val == nil {
+				c.noZero08(g, it.id) // [ext:T08]
+				if noZero(g) {
+					t.fail(s, "zero value of %s, which contains a function (nil functions are not modelled)", it.id.Name)
+				}
 				en2, name := c.declare(en, obj, g)
 				return fmt.Sprintf("let %s := %s in\n%s", name, g.zero(), rec(i+1, en2))
 			}
@@ -342,6 +359,7 @@ func (c *fctx) stmt(s ast.Stmt, en *env, lc *lctx, next kont) string {
 			if g.k == kErr { // [ext:T20] var err error = nil
 				c.markNilAs20(it.val)
 			}
+			c.refuseNilOpaque08(g, it.val) // [ext:T08]
 			return c.expr(it.val, en, func(v string) string {
 				en2, name := c.declare(c.taintCalls(it.val, en), obj, g)
 				en2 = c.noteAlias(it.id, it.val, en2)
@@ -365,6 +383,7 @@ func (c *fctx) stmt(s ast.Stmt, en *env, lc *lctx, next kont) string {
 			if c.fi.results[i].k == kErr {
 				c.markNilAs20(r)
 			}
+			c.refuseNilOpaque08(c.fi.results[i], r) // [ext:T08]
 		}
 		return c.args(x.Results, en, func(vs []string) string { return lc.ret(c.retTerm(en, vs)) })
 	case *ast.BranchStmt:
@@ -397,6 +416,17 @@ func (c *fctx) stmt(s ast.Stmt, en *env, lc *lctx, next kont) string {
 
 // retTerm: the value a `return vs` produces: the results, preceded by the receiver when the method writes it.
 func (c *fctx) retTerm(en *env, vs []string) string {
+	if io := c.inoutParams(en); len(io) > 0 { // receiver, in-out slices, results (trans_func.go)
+		var pre []string
+		if c.fi.recv != nil && c.fi.writes {
+			pre = append(pre, en.lookup(c.fi.recv).name)
+		}
+		pre = append(pre, io...)
+		if len(vs) > 0 {
+			pre = append(pre, tuple(vs))
+		}
+		return tuple(pre)
+	}
 	var parts []string
 	if c.fi.recv != nil && c.fi.writes {
 		parts = append(parts, en.lookup(c.fi.recv).name)
@@ -404,6 +434,7 @@ func (c *fctx) retTerm(en *env, vs []string) string {
 	for _, g := range c.t.ordered20(c.fi.gwrites) { // [ext:T20] written package-level state is returned
 		parts = append(parts, c.globalName20(g, en, c.fi.decl))
 	}
+	parts = append(parts, c.outNames08(en)...) // [ext:T08] output parameters
 	parts = append(parts, c.outNames15(en)...) // [ext:T15] slice parameters written in place are returned
 	if len(parts) == 0 {
 		return tuple(vs)
@@ -470,7 +501,7 @@ func (c *fctx) assign(x *ast.AssignStmt, en *env, next kont) string {
 			en3 := en2
 			if rhs != nil {
 				en3 = c.noteAlias(lhs, rhs[i], en2)
-			} else if k := c.sliceKey(lhs, en2); k != "" && c.lhsIsSlice15(lhs, en2) { // [ext:T15] `a, ok := f()` with ok redeclared: go/types records no type for it
+			} else if k := c.sliceKey(lhs, en2); k != "" && c.lhsType08(lhs, en2).k == kSlice { // [ext:T08] `a, err := f()` with err redeclared: no entry in info.Types
 				en3 = en2.share(k)
 			}
 			return c.assignTo(lhs, vs[i], en2, func() string { return rec(i+1, en3) })
@@ -490,6 +521,7 @@ func (c *fctx) assign(x *ast.AssignStmt, en *env, next kont) string {
 	for i := range x.Lhs { // [ext:T20] err = nil
 		if x.Tok == token.ASSIGN {
 			c.markNil20(x.Rhs[i], x.Lhs[i])
+			c.refuseNilAssign08(x.Lhs[i], x.Rhs[i], en) // [ext:T08]
 		}
 	}
 	if len(x.Lhs) > 1 {
@@ -725,7 +757,7 @@ func (c *fctx) rangeStmt(x *ast.RangeStmt, en *env, lc *lctx, next kont) string 
 					return rest()
 				}
 				ev := c.fresh("v")
-				return fmt.Sprintf("do %s <- m_get %s %s;;\n%s", ev, rng, idx, bindVar(x.Value, ev, rest))
+				return fmt.Sprintf("do %s <- %s %s %s;;\n%s", ev, getFn08(t.exprType(x.X)), rng, idx, bindVar(x.Value, ev, rest)) // [ext:T08]
 			}))
 			return b.String()
 		}
@@ -744,6 +776,8 @@ func (t *Translator) emitFunc(fi *funcInfo) string {
 	if fi.loops {
 		params = append(params, "(fuel : nat)")
 	}
+	params = append(params, t.extParam08(fi)...) // [ext:T08] ext' : Foreign
+	t.checkHandles08(fi)                         // [ext:T08]
 	sig := fi.obj.Type().(*types.Signature)
 	if fi.recv != nil {
 		var name string
@@ -764,7 +798,7 @@ func (t *Translator) emitFunc(fi *funcInfo) string {
 		var name string
 		en, name = c.declare(en, p, g)
 		params = append(params, fmt.Sprintf("(%s : %s)", name, g.coq()))
-		if g.k == kSlice && !fi.isOut15(i) { // [ext:T15] a slice parameter written in place is returned instead
+		if g.k == kSlice && !(i < len(fi.noesc) && fi.noesc[i]) && !fi.isOut08(i) && !fi.isOut15(i) { // [func] noesc; [ext:T08] not an output parameter; [ext:T15] written in place: returned instead
 			en = en.share(name) // the caller still holds the array
 		}
 	}
@@ -774,13 +808,26 @@ func (t *Translator) emitFunc(fi *funcInfo) string {
 	}
 	rt := tupleType(rts)
 	var stateT []string
-	if fi.recv != nil && fi.writes {
-		stateT = append(stateT, fi.recvT.coq())
+	if ioT := t.inoutTypes(fi); len(ioT) > 0 { // receiver, in-out slices, results (trans_func.go)
+		var pre []string
+		if fi.recv != nil && fi.writes {
+			pre = append(pre, fi.recvT.coq())
+		}
+		pre = append(pre, ioT...)
+		if len(rts) > 0 {
+			pre = append(pre, rt)
+		}
+		rt = tupleType(pre)
+	} else {
+		if fi.recv != nil && fi.writes {
+			stateT = append(stateT, fi.recvT.coq())
+		}
+		for _, g := range t.ordered20(fi.gwrites) { // [ext:T20]
+			stateT = append(stateT, g.ty.coq())
+		}
 	}
-	for _, g := range t.ordered20(fi.gwrites) { // [ext:T20]
-		stateT = append(stateT, g.ty.coq())
-	}
-	for range fi.outs { // [ext:T15]
+	stateT = append(stateT, t.outTypes08(fi)...) // [ext:T08] output parameters
+	for range fi.outs15 {                        // [ext:T15]
 		stateT = append(stateT, "list Z")
 	}
 	t.checkOuts15(fi) // [ext:T15]
